@@ -154,7 +154,11 @@ func Restore(enc *errorspb.EncodedError) {
 func BlankBarrierReportables(b []byte) []byte {
 	e := Unmarshal(b)
 	VisitDetails(&e, func(d *errorspb.EncodedErrorDetails, _ bool) {
-		if strings.HasSuffix(strings.TrimSuffix(d.ErrorTypeMark.FamilyName, UnkSuffix), "barriers/*barriers.barrierErr") {
+		// (barriers and secondary-error layers: their safe details embed a
+		// rendering of the hidden error, recomputed by every process that
+		// knows the type)
+		f := strings.TrimSuffix(d.ErrorTypeMark.FamilyName, UnkSuffix)
+		if strings.HasSuffix(f, "barriers/*barriers.barrierErr") || strings.HasSuffix(f, "secondary/*secondary.withSecondaryError") {
 			d.ReportablePayload = nil
 		}
 	})
